@@ -1,4 +1,5 @@
 CONSTANTS MaxLater = 2
+  PLens = {0, 255, 512, 1000}
 INIT Init
 NEXT Next
 INVARIANT Emit
